@@ -59,6 +59,8 @@ def grid(rng, thorough):
         add("recv.exp=%d" % e, base, recv_override={0: (e, base.recv_block(0))})
     for ln in (0, 4, S - 4, S + 4, 2 * S):
         add("recv.len=%d" % ln, base, recv_override={1: (1, L.gen_content(rng, "random", ln))})
+    add("recv.body-empty", base, extra_recv=[W.packet(base.setid, W.T_RECV, b"")])           # not even the exponent
+    add("recv.body-exponent-only", base, extra_recv=[W.packet(base.setid, W.T_RECV, struct.pack("<I", 9))])
     add("recv.duplicate-identical", base, extra_recv=[base.p_recv(1)])
     add("recv.duplicate-different", base, extra_recv=[W.packet(base.setid, W.T_RECV, struct.pack("<I", 1) + L.gen_content(rng, "random", S))])
     add("recv.wrong-data", base, recv_override={0: (0, L.gen_content(rng, "random", S)), 1: (1, L.gen_content(rng, "random", S))})
